@@ -138,6 +138,36 @@ func (e *c08ex) Exec(op string) string {
 			return "err"
 		}
 		return "ok"
+	case "beginbad":
+		// a begin the chaincode must refuse whatever the state: a token (plain or grouped) that belongs to
+		// neither channel. (A destination equal to the own channel is NOT refused by the code, and the
+		// property does not ask for it: tried, dropped.)
+		if len(w) != 5 || e.u(w[2]) == nil {
+			return "bad-op"
+		}
+		h := sha3.Sum256([]byte(e.key(w[1], "right")))
+		tok, to := e.token(), "CC"
+		switch w[4] {
+		case "badtoken":
+			tok = "ZZ"
+		case "badtoken2":
+			tok = "ZZ_G1"
+		default:
+			return "bad-op"
+		}
+		id := simpeer.NewTxID()
+		r := e.a.Invoke(wd.Client.Creator, id, "swapBegin", e.a.Signed(e.u(w[2]), "swapBegin", tok, to, w[3], hex.EncodeToString(h[:]))...)
+		if !r.OK() {
+			return "err"
+		}
+		b := e.a.ExecIDs(id)
+		if b.Resp == nil || b.Resp.TxResponses[0].GetError() != nil {
+			if b.Resp != nil && len(b.Resp.GetCreatedSwaps()) != 0 {
+				e.flag("failed_begin_announced", "a swapBegin that failed is listed in CreatedSwaps of the batch reply")
+			}
+			return "err"
+		}
+		return "ok"
 	case "answer":
 		if len(w) != 4 || e.u(w[2]) == nil {
 			return "bad-op"
@@ -281,6 +311,9 @@ func genC08(c *Cfg, emit func([]string)) {
 		var sws []sw
 		n := 4 + c.Rng.Intn(12)
 		for j := 0; j < n; j++ {
+			if c.Rng.Intn(12) == 0 {
+				h = append(h, fmt.Sprintf("beginbad x%d %s %d %s", j, []string{"u0", "u1"}[c.Rng.Intn(2)], []int{1, 45, 100}[c.Rng.Intn(3)], []string{"badtoken", "badtoken2"}[c.Rng.Intn(2)]), "dump")
+			}
 			if len(sws) == 0 || c.Rng.Intn(5) == 0 {
 				sym := fmt.Sprintf("s%d", len(sws)+1)
 				u := []string{"u0", "u1"}[c.Rng.Intn(2)]
@@ -318,6 +351,6 @@ func genC08(c *Cfg, emit func([]string)) {
 		}
 		emit(h)
 	}
-	c.Rule = fmt.Sprintf("(a) every sequence of %d steps over {begin, answer, user completion with right/wrong key on either channel, robot completion with right/wrong key, cancel on A, cancel on B} on one swap in both directions (exhaustive%s); (b) %d random histories with two concurrent swaps by different owners, begin through batches and task lists, a second begin under the id of an open swap (task route), robot content off protocol; two real chaincode instances; after every step balances of both owners on both channels, both given counters and the records visible through swapGet; the published key event is checked on completion. non-trivial = contains a begin; distinct = sha256", depth, map[bool]string{true: "", false: ", plus 1400 random walks of depth+3"}[c.Thorough()], nRand)
+	c.Rule = fmt.Sprintf("(a) every sequence of %d steps over {begin, answer, user completion with right/wrong key on either channel, robot completion with right/wrong key, cancel on A, cancel on B} on one swap in both directions (exhaustive%s); (b) %d random histories with two concurrent swaps by different owners, begin through batches and task lists, a second begin under the id of an open swap (task route), begins with a token of neither channel, robot content off protocol; two real chaincode instances; after every step balances of both owners on both channels, both given counters and the records visible through swapGet; the published key event is checked on completion. non-trivial = contains a begin; distinct = sha256", depth, map[bool]string{true: "", false: ", plus 1400 random walks of depth+3"}[c.Thorough()], nRand)
 	c.Extra = map[string]any{"walk_depth": depth, "random": nRand}
 }
